@@ -24,6 +24,99 @@ def repo_root():
 PACKAGES = ('qbee', 'qvm')
 
 
+def _attr_chain(e):
+    while isinstance(e, ast.Attribute):
+        e = e.value
+    return isinstance(e, ast.Name)
+
+
+def _bound_names(fn):
+    out = {a.arg for a in fn.args.args + fn.args.kwonlyargs +
+           fn.args.posonlyargs}
+    if fn.args.vararg:
+        out.add(fn.args.vararg.arg)
+    if fn.args.kwarg:
+        out.add(fn.args.kwarg.arg)
+    return out
+
+
+def inline_aliases(tree):
+    """Normalisation: inside every function, a local that is assigned
+    exactly once from a pure name/attribute chain (`Operator =
+    expr.Operator`, `frame = self.cpu.cur_frame`) is replaced by that chain
+    at its uses.  Makes the rules independent of such alias names; applied
+    identically to every tree that is analysed."""
+    for fn in [n for n in ast.walk(tree)
+               if isinstance(n, (ast.FunctionDef, ast.AsyncFunctionDef))]:
+        stores = {}
+        params = _bound_names(fn)
+
+        def scan(node):
+            for ch in ast.iter_child_nodes(node):
+                if isinstance(ch, (ast.FunctionDef, ast.AsyncFunctionDef,
+                                   ast.Lambda, ast.ClassDef)):
+                    continue
+                if isinstance(ch, ast.Name) and isinstance(
+                        ch.ctx, (ast.Store, ast.Del)):
+                    stores.setdefault(ch.id, []).append(ch)
+                scan(ch)
+        scan(fn)
+        aliases = {}
+        for st in ast.walk(fn):
+            if isinstance(st, ast.Assign) and len(st.targets) == 1 and \
+                    isinstance(st.targets[0], ast.Name) and \
+                    isinstance(st.value, ast.Attribute) and \
+                    _attr_chain(st.value):
+                name = st.targets[0].id
+                if name in params or len(stores.get(name, [])) != 1:
+                    continue
+                root = st.value
+                while isinstance(root, ast.Attribute):
+                    root = root.value
+                if root.id == name:
+                    continue
+                # the root must not be a multiply-assigned local (loop
+                # variables etc. are fine to mention textually)
+                aliases[name] = st.value
+        if not aliases:
+            continue
+
+        class T(ast.NodeTransformer):
+            def visit_Name(self, node):
+                if isinstance(node.ctx, ast.Load) and node.id in aliases:
+                    new = ast.parse(ast.unparse(aliases[node.id]),
+                                    mode='eval').body
+                    for x in ast.walk(new):
+                        ast.copy_location(x, node)
+                    return new
+                return node
+
+            def _scoped(self, node):
+                bound = _bound_names(node) if not isinstance(
+                    node, ast.ClassDef) else set()
+                for x in ast.walk(node):
+                    if isinstance(x, ast.Name) and isinstance(
+                            x.ctx, ast.Store):
+                        bound.add(x.id)
+                saved = dict(aliases)
+                for b in bound:
+                    aliases.pop(b, None)
+                self.generic_visit(node)
+                aliases.clear()
+                aliases.update(saved)
+                return node
+
+            def visit_FunctionDef(self, node):
+                if node is fn:
+                    self.generic_visit(node)
+                    return node
+                return self._scoped(node)
+
+            def visit_Lambda(self, node):
+                return self._scoped(node)
+        T().visit(fn)
+
+
 @dataclass
 class FuncInfo:
     module: 'Module'
@@ -102,6 +195,7 @@ class Module:
             self.tree = ast.parse(source, filename=str(path))
         except SyntaxError as e:
             raise AnalysisError(f'cannot parse {relpath}: {e}')
+        inline_aliases(self.tree)
         for node in ast.walk(self.tree):
             for child in ast.iter_child_nodes(node):
                 child._parent = node
